@@ -1249,7 +1249,9 @@ func (c *Ctx) SignCheckBeforeSuccess(include func(*ssa.Function) bool) []core.Ob
 							case token.LSS, token.GEQ, token.LEQ, token.GTR:
 								if y.Referrers() != nil {
 									for _, u := range *y.Referrers() {
-										if _, isIf := u.(*ssa.If); isIf {
+										// a sign TEST: one side of the branch fails (the entry guard of a counting
+										// loop, `0 < n`, is not one)
+										if iff, isIf := u.(*ssa.If); isIf && (failsOnly(iff.Block().Succs[0]) || failsOnly(iff.Block().Succs[1])) {
 											checks = append(checks, y.Block())
 										}
 									}
